@@ -290,6 +290,11 @@ def check(F, rep, tier):
     for p_ in F.fns:
         if "clap::Args>::augment_args" in p_ and "crate::cli::common::args::output" in p_:
             custom |= {x for x in (cgo.addr.get(p_, set()) | cgo.edges.get(p_, set())) if x.startswith("crate::") and F.fn(x) is not None and "::_::" not in x}
+    lists_ = sorted(x for x in custom if F.fn(x).kind in ("const", "static", "anonconst", "promoted"))
+    custom -= set(lists_)
+    if lists_:
+        # `value_parser = ["a", "b"]` / a const array of texts is clap's PossibleValuesParser: the accepted text is passed on as written
+        rep.ok("R01.11", "constant possible-value lists on output options (%s): an accepted value is taken as written" % ", ".join(x.rsplit("::", 1)[-1] for x in lists_ if "{" not in x and "promoted" not in x), nontrivial_key="valuelists")
     for x in sorted(custom):
         g_ = F.fn(x)
         inner = sorted({(mir.callee(t) or "").rsplit("::", 1)[-1] for h in [g_] + F.children(x) for bi, t in h.calls()})
